@@ -173,6 +173,41 @@ CLAIMED = {
             "5 (C01)"),
 }
 
+# what was added to each check after the text above was written (seed rounds 3 and 4, DESIGN.md 11.6c / 11.6d)
+COMMON = (" Every other scenario is replayed on operands with warm caches, every third on Fortran-ordered data (concretisation variants "
+          "that the abstract arrays cannot tell apart).")
+ADDENDA = {
+    "C01": "Also: index lists of another kind than the axis (float labels on int axes and vice versa), empty selections with a tolerance, "
+           "sel / isel / take / nloc under both values of the indexing.by option.",
+    "C03": "Also: pointwise (broadcast=True) assignment, spec/Arrays.tla PutPoints / TakePoints with theorems PointsFrame, PointsReadBack, PointsErr "
+           "(2-d and 3-d, lists / masks / scalars / slices, label and position, cast, array right-hand sides).",
+    "C05": "The session starts from one of three pairs of arrays (2-d sorted + 1-d unsorted; 3-d with unsorted and decreasing axes + 2-d; 1-d decreasing + "
+           "2-d with a singleton dimension). Actions added: position index forms, DimArray(a, **metadata); queries for absent labels and plain look-ups "
+           "on history-laden arrays. Constructor pools with one common axis length; dims= contradicting the data shape must be rejected.",
+    "C06": "Also: falsy smallest labels (0, 0.0, ''), Datasets in mixed int / float joins; single-label axes take the direction of the other inputs.",
+    "C07": "Also: fill values given as narrow NumPy float scalars on integers they cannot hold.",
+    "C09": "Also: bool / int8 / int32 / uint8 / float32 data compared with NumPy's cumulative result (values and dtype).",
+    "C10": "Also: repetitions and new axes with a single label.",
+    "C11": "Also: two and three groups with a new singleton anywhere; tuple-axis reductions of 8 operations compared with the operation on the flattened "
+           "group (order-sensitive ones included); the grouped axis read by position list / slice / mask.",
+    "C12": "Also: dict input with explicit keys in another order; three inputs with the mismatching one in the middle.",
+    "C13": "Actions added: set_axis / relabel / rename through a variable; ContinueOn (the program goes on with the Dataset returned by copy() or an "
+           "inplace=False method, every abandoned Dataset is re-projected after each step); ds[<dimension>] written into. The order of the Dataset's axes "
+           "is not compared (the property promises the set).",
+    "C14": "Also: keepdims, reindex_axis methods left / right, concatenate_ds of Datasets whose other axes differ (must be rejected), a decreasing axis, "
+           "the metadata of every returned variable.",
+    "C15": "Also: DimArray(a, **metadata) as a Workspace action; sweep classes for grouped-axis operands, to_json with non-representable metadata, "
+           "Dataset operands of every ds_* class.",
+    "C16": "Every path is replayed with three value maps (truthy, 0 / '', False / []); 13 more metadata-carrying operation classes; the whole "
+           "reachable state space of the routing machine is explored (diameter 9), so the four action properties hold for histories of any length.",
+    "C17": "Also: setna with a list of a mask and a value; arguments must be unchanged.",
+    "C18": "Also: a preceding call on another grid with the same size, end labels and new coordinates (nothing may be reused).",
+    "C19": "Dataset.write_nc with modes w / a / a+ (append merges dimensions, variables and metadata); files are also read by naming all variables and "
+           "through open_nc(f).read(names=); JSON round trip with non-representable metadata present.",
+    "C20": "Also: rotated index lists, 0-d variables (only the empty index is accepted, rejected assignments leave the file unchanged), file lists not in "
+           "lexicographic order (and left unchanged), keys with an existing axis (re-indexing); thorough: a 3-d variable with float, str and int labels.",
+}
+
 REASON_TODO = "check not built yet in this round (planned, see DESIGN.md section 10)"
 
 
@@ -183,6 +218,7 @@ def main():
         pid = p["id"]
         if pid in CLAIMED:
             tech, text, note, ref = CLAIMED[pid]
+            text = text + (" " + ADDENDA[pid] if pid in ADDENDA else "") + COMMON
             checks.append(dict(
                 property_id=pid,
                 quick_cmd="%s run_check.py %s --tier quick" % (PY, pid),
